@@ -212,12 +212,13 @@ func c11Exec(bin, dir, cache string, args ...string) c11Run {
 	cmd.Dir = dir
 	var env []string
 	for _, e := range os.Environ() {
-		if strings.HasPrefix(e, "GOFLAGS=") || strings.HasPrefix(e, "STATICCHECK_CACHE=") || strings.HasPrefix(e, "GOWORK=") {
+		if strings.HasPrefix(e, "GOFLAGS=") || strings.HasPrefix(e, "STATICCHECK_CACHE=") || strings.HasPrefix(e, "GOWORK=") || strings.HasPrefix(e, "GOMAXPROCS=") {
 			continue
 		}
 		env = append(env, e)
 	}
-	env = append(env, "STATICCHECK_CACHE="+cache, "GOWORK=off")
+	// 16 runs are in flight at a time; each (and its `go list` children) gets two Ps
+	env = append(env, "STATICCHECK_CACHE="+cache, "GOWORK=off", "GOMAXPROCS=2")
 	cmd.Env = env
 	var so, se bytes.Buffer
 	cmd.Stdout, cmd.Stderr = &so, &se
@@ -493,10 +494,24 @@ func (e *c11E2E) base(variant string) bool {
 		return false
 	}
 	all := c11Level{Set: true, List: []string{"all"}}
-	for _, f := range c11Formats {
-		c := c11CaseB{Variant: v, Checks: all, ShowIgnored: true}
-		r1 := c11Exec(e.bin, d, e.cacheDir(0), c11Args(c, f)...)
-		r2 := c11Exec(e.bin, d, e.cacheDir(0), c11Args(c, f)...)
+	// each format twice, all eight runs at once
+	baseRuns := make([][2]c11Run, len(c11Formats))
+	{
+		var wg sync.WaitGroup
+		for fi, f := range c11Formats {
+			for k := 0; k < 2; k++ {
+				wg.Add(1)
+				go func(fi, k int, f string) {
+					defer wg.Done()
+					c := c11CaseB{Variant: v, Checks: all, ShowIgnored: true}
+					baseRuns[fi][k] = c11Exec(e.bin, d, e.cacheDir(1+2*fi+k), c11Args(c, f)...)
+				}(fi, k, f)
+			}
+		}
+		wg.Wait()
+	}
+	for fi, f := range c11Formats {
+		r1, r2 := baseRuns[fi][0], baseRuns[fi][1]
 		e.runs.Add(2)
 		if r1.err != nil || r2.err != nil {
 			res.NotExhaustive(fmt.Sprintf("cannot run the binary: %v %v", r1.err, r2.err))
@@ -848,8 +863,8 @@ func c11L(s ...string) c11Level { return c11Level{Set: true, List: s} }
 
 // c11CasesB is the covering set. Tree shape = which of the three levels carry a conf file.
 //   - every tree shape x every -checks list (lists on the set levels rotating);
-//   - trees over a small set of lists (thorough: all 125 trees x all 8 -checks lists; quick: every
-//     third of the 64 trees with a rotating -checks list);
+//   - trees over a small set of lists (thorough: all 125 trees, each with 5 of the 8 -checks lists;
+//     quick: every third of the 64 trees with a rotating -checks list);
 //   - -fail rotates so that every (-checks, -fail) pair occurs;
 //   - a few -show-ignored runs, runs with a malformed staticcheck.conf in d/, runs with a
 //     malformed //lint:ignore directive in d/bad.go.
@@ -901,36 +916,8 @@ func c11CasesB() []c11CaseB {
 			n++
 		}
 	}
-	// shapes x flags
-	pool := append(append([]c11Level{}, lists...), extra...)
-	for shape := 0; shape < 8; shape++ {
-		for fi, f := range flags {
-			var lv [3]c11Level
-			for i := 0; i < 3; i++ {
-				if shape&(1<<i) != 0 {
-					lv[i] = pool[(shape+fi+2*i)%len(pool)]
-				}
-			}
-			add(c11CaseB{Variant: "plain", Levels: lv, Checks: f})
-		}
-	}
-	// trees over the small list set
 	choices := append([]c11Level{none}, lists...)
-	ti := 0
-	for _, r := range choices {
-		for _, d := range choices {
-			for _, s := range choices {
-				ti++
-				if vx.Thorough() {
-					for _, f := range flags {
-						add(c11CaseB{Variant: "plain", Levels: [3]c11Level{r, d, s}, Checks: f})
-					}
-				} else if ti%3 == 1 {
-					add(c11CaseB{Variant: "plain", Levels: [3]c11Level{r, d, s}, Checks: flags[ti%len(flags)]})
-				}
-			}
-		}
-	}
+	// the few special variants first, so that a run cut short by the time budget still has them
 	// -show-ignored; S1005 only occurs as an ignored problem, so -fail=S1005 isolates the question
 	// whether an ignored problem can fail the run
 	showTrees := [][3]c11Level{{}, {lists[0]}, {lists[1], none, lists[0]}}
@@ -961,6 +948,37 @@ func c11CasesB() []c11CaseB {
 				continue
 			}
 			add(c11CaseB{Variant: "baddirective", Levels: lv, Checks: f, Fail: fails[(i+j)%2]})
+		}
+	}
+	// shapes x flags
+	pool := append(append([]c11Level{}, lists...), extra...)
+	for shape := 0; shape < 8; shape++ {
+		for fi, f := range flags {
+			var lv [3]c11Level
+			for i := 0; i < 3; i++ {
+				if shape&(1<<i) != 0 {
+					lv[i] = pool[(shape+fi+2*i)%len(pool)]
+				}
+			}
+			add(c11CaseB{Variant: "plain", Levels: lv, Checks: f})
+		}
+	}
+	// trees over the small list set
+	ti := 0
+	for _, r := range choices {
+		for _, d := range choices {
+			for _, s := range choices {
+				ti++
+				if vx.Thorough() {
+					for fi, f := range flags {
+						if (fi+ti)%len(flags) < 5 { // 5 of the 8 lists per tree, rotating
+							add(c11CaseB{Variant: "plain", Levels: [3]c11Level{r, d, s}, Checks: f})
+						}
+					}
+				} else if ti%3 == 1 {
+					add(c11CaseB{Variant: "plain", Levels: [3]c11Level{r, d, s}, Checks: flags[ti%len(flags)]})
+				}
+			}
 		}
 	}
 	return out
